@@ -152,6 +152,15 @@ def judge(rep, item, mobs):
                 return
         mcmp = mrow if isinstance(mrow, str) else list(mrow)
         icmp = irow if isinstance(irow, str) else irow[:3]
+        if mcmp != icmp and not isinstance(mcmp, str) and not isinstance(icmp, str) \
+                and mcmp[:2] == icmp[:2]:
+            # the right line, the wrong timestamp: the model's date IS the matcher applied to
+            # the window at the start of that line (oracle table), which is what C11 states
+            rep.fail('failing-input', case,
+                     f"try_find_line({o}) found the line [{ls},{le}) but reports timestamp "
+                     f"{icmp[2]} for it; the timestamp at the start of that line is {mcmp[2]}",
+                     impl=icmp, spec=mcmp)
+            return
         if mcmp != icmp:
             rep.fail('correspondence-broken', case,
                      f"try_find_line({o}): impl={icmp} model={mcmp}", impl=icmp, model=mcmp)
